@@ -82,8 +82,10 @@ CLAIMS = {
                      "off, current node not a template element, mode 'text' or 'in body' / 'in caption' / 'in template' with an "
                      "HTML adjusted current node); the side condition has a sound boolean checker and a computed example "
                      "(C03_tree_split_side_condition_checker_sound, C03_tree_split_example). Also the invariance of the "
-                     "pending-table-text white-space test (C03_tree_pending_table_text_test). NOT proved: cuts in the table-text "
-                     "queue and its flush, in the modes that split off leading white space (SplitWhitespace), in 'in cell', in "
+                     "pending-table-text white-space test (C03_tree_pending_table_text_test) and the flush of a white-space-only "
+                     "pending table text with one entry cut in two (C03_tree_table_text_flush_ws_split_partial, "
+                     "C03_tree_appends_split; not integrated into the list statement). NOT proved: cuts in the table-text "
+                     "queue in general (queueing steps, foster-parenting branch of the flush), in the modes that split off leading white space (SplitWhitespace), in 'in cell', in "
                      "foreign content, with foster parenting on or a template element as the current node - see the headers of "
                      "coq/Tree/TreeSplit.v and TreeSplitRun.v. Oracle: metamorphic chunking / script-injection "
                      "runs on the implementation (tokens, errors, lines, final tree).",
